@@ -771,13 +771,19 @@ class UpdateableGroup(updateable_base):
 
         return True
 
-    def update_pull(self, req: ArchiveFileCopyRequest) -> None:
+    def update_pull(self, req: ArchiveFileCopyRequest) -> bool:
         """Process pull request `req`.
 
         Parameters
         ----------
         req : ArchiveFileCopyRequest
             The pull request to process.
+
+        Returns
+        -------
+        dispatched : bool
+            True if the request was handed to the Group I/O layer; False if
+            it was skipped or cancelled.
         """
 
         # The only label left unbound here is "result"
@@ -802,14 +808,14 @@ class UpdateableGroup(updateable_base):
                 ArchiveFileCopyRequest.id == req.id
             ).execute()
             comp_metric.inc(result="duplicate")
-            return
+            return False
         if copy_state == "M":
             log.warning(
                 f"Skipping pull request for "
                 f"{req.file.acq.name}/{req.file.name}: "
                 f"existing copy in group {self.name} needs check."
             )
-            return
+            return False
         if copy_state == "X":
             # If the file is corrupt, we continue with the
             # pull to overwrite the corrupt file
@@ -823,7 +829,7 @@ class UpdateableGroup(updateable_base):
                 f"Unexpected copy state: '{copy_state}' "
                 f"for file ID={req.file.id} in group {self.name}."
             )
-            return
+            return False
 
         # Skip request unless the source node is active
         if not req.node_from.active:
@@ -831,7 +837,7 @@ class UpdateableGroup(updateable_base):
                 f"Skipping request for {req.file.acq.name}/{req.file.name}:"
                 f" source node {req.node_from.name} is not active."
             )
-            return
+            return False
 
         # If the source file doesn't exist, cancel the request.  If the
         # source is suspect, skip the request.
@@ -846,13 +852,13 @@ class UpdateableGroup(updateable_base):
                 ArchiveFileCopyRequest.id == req.id
             ).execute()
             comp_metric.inc(result="missing")
-            return
+            return False
         if state == "M":
             log.info(
                 f"Skipping request for {req.file.acq.name}/{req.file.name}:"
                 f" source needs check on node {req.node_from.name}."
             )
-            return
+            return False
 
         # If the source file is not ready, skip the request.
         node_from = RemoteNode(req.node_from)
@@ -861,13 +867,14 @@ class UpdateableGroup(updateable_base):
                 f"Skipping request for {req.file.acq.name}/{req.file.name}:"
                 f" not ready on node {req.node_from.name}."
             )
-            return
+            return False
 
         # Early checks passed: dispatch this request to the Group I/O layer
         if copy_state == "X":
             self.io.pull_force(req)
         else:
             self.io.pull(req)
+        return True
 
     def update(self) -> None:
         """Perform I/O updates on the group"""
@@ -894,6 +901,9 @@ class UpdateableGroup(updateable_base):
 
             # Remember ArchiveFiles that we're pulling, so we don't end up with
             # overlapping pulls (which would try to write to the same file).
+            # Only requests actually dispatched count: a request skipped this
+            # time (say, because its source is inactive) must not keep another
+            # request for the same file waiting forever.
             seen_files = set()
 
             # Process pulls into this group
@@ -903,8 +913,8 @@ class UpdateableGroup(updateable_base):
                 ArchiveFileCopyRequest.group_to == self.db,
             ):
                 if req.file not in seen_files:
-                    seen_files.add(req.file)
-                    self.update_pull(req)
+                    if self.update_pull(req):
+                        seen_files.add(req.file)
 
             # Check for idleness at the end
             self._do_idle_updates = self.idle
